@@ -12,7 +12,6 @@ import (
 	"fmt"
 	"os"
 	"runtime"
-	"runtime/pprof"
 	"strconv"
 	"sync"
 	"time"
@@ -102,19 +101,13 @@ func report(res *lib.Result, w *World, sc *Scenario, mode string) {
 
 func main() {
 	f := lib.ParseFlags()
-	if pf := os.Getenv("C12_CPUPROF"); pf != "" {
-		if fh, e := os.Create(pf); e == nil {
-			pprof.StartCPUProfile(fh)
-			defer pprof.StopCPUProfile()
-		}
-	}
 	res := lib.NewResult("case = one generated history run on real tendermint state machines and on the Lean model: a network scenario " +
 		"(n validators, Byzantine power <= f, adversarial scheduling of deliveries/timeouts/duplicates/losses/Byzantine messages, 2-3 heights), " +
 		"an undisciplined single-machine fuzz history, or one total voting power whose thresholds are measured; every input of a history is " +
 		"compared (correspondence count = inputs); non-trivial = the history made a machine emit at least one action, or a threshold case with N > 0")
 	r := lib.NewRNG(f.Seed)
 
-	startWatchdog(5*time.Second, func(w *World) {
+	startWatchdog(20*time.Second, func(w *World) {
 		cut := *w.sc
 		cut.Events = append(append([]Event(nil), w.sc.Events[:min(len(w.sc.Events), len(w.Outs))]...), Event{M: w.PendingM, In: *w.Pending})
 		mode := "sim"
@@ -122,7 +115,7 @@ func main() {
 			mode = "fuzz"
 		}
 		res.Violate(lib.Violation{Sig: "state-machine-does-not-terminate",
-			What:   fmt.Sprintf("machine %d did not return from input %q within 5s (rule loop without fixed point?)", w.PendingM, w.Pending.Line(w.PendingM)),
+			What:   fmt.Sprintf("machine %d did not return from input %q within 20s (rule loop without fixed point?)", w.PendingM, w.Pending.Line(w.PendingM)),
 			Replay: replayBody{Mode: mode, Scenario: &cut}})
 		lib.Finish(f, res)
 	})
@@ -141,8 +134,8 @@ func main() {
 	runLead(res, drv)
 	drv.Close()
 
-	nSim := f.Scale(16000, 250000)
-	nFuzz := f.Scale(10000, 150000)
+	nSim := f.Scale(16000, 120000)
+	nFuzz := f.Scale(10000, 80000)
 	workers := max(4, min(14, runtime.NumCPU()-2))
 	var wg sync.WaitGroup
 	var mu sync.Mutex
@@ -248,7 +241,6 @@ func main() {
 	for k, v := range agg {
 		res.HitN(k, v)
 	}
-	pprof.StopCPUProfile()
 	lib.Finish(f, res)
 }
 
